@@ -105,7 +105,12 @@ func fitsInt(x int64, sizes types.Sizes) bool {
 func asInt64(x value) int64 {
 	switch x := x.(type) {
 	case symI:
-		return cur.concretize(x)
+		u := cur.concretize(x)
+		if x.signed && x.w < 64 {
+			sh := uint(64 - x.w)
+			return int64(u<<sh) >> sh
+		}
+		return int64(u)
 	case int:
 		return int64(x)
 	case int8:
@@ -340,7 +345,7 @@ func lookup(instr *ssa.Lookup, x, idx value) value {
 // numeric datatypes and strings.  Both operands must have identical
 // dynamic type.
 func binop(op token.Token, t types.Type, x, y value) value {
-	if r, ok := symBinop(op, x, y); ok {
+	if r, ok := symBinop(op, t, x, y); ok {
 		return r
 	}
 	switch op {
@@ -855,6 +860,9 @@ func unop(instr *ssa.UnOp, x value) value {
 		}
 		return v
 	case token.SUB:
+		if r, ok := symUnop(instr.Op, x); ok {
+			return r
+		}
 		switch x := x.(type) {
 		case int:
 			return -x
@@ -893,11 +901,14 @@ func unop(instr *ssa.UnOp, x value) value {
 		}
 		return load(mustDeref(instr.X.Type()), x.(*value))
 	case token.NOT:
-		if sb, ok := x.(symB); ok {
-			return symB{"(not " + sb.t + ")"}
+		if r, ok := symUnop(instr.Op, x); ok {
+			return r
 		}
 		return !x.(bool)
 	case token.XOR:
+		if r, ok := symUnop(instr.Op, x); ok {
+			return r
+		}
 		switch x := x.(type) {
 		case int:
 			return ^x
